@@ -31,15 +31,15 @@ func (o origin) String() string {
 
 // concModel: the mutex, the limit variable, the guarded field, fresh-returning functions.
 type concModel struct {
-	pkg      *ssa.Package
-	nodeT    *types.Named
-	mu       *ssa.Global
-	limit    []*ssa.Global // package variables accessed through sync/atomic
-	tm       *tree.Model
-	fs       []*ssa.Function // functions of the root package (with init and closures)
-	freshRet map[*ssa.Function]bool
-	callers  map[*ssa.Function][]*ssa.Function
-	requires map[*ssa.Function]int
+	pkg          *ssa.Package
+	nodeT        *types.Named
+	mu           *ssa.Global
+	limit        []*ssa.Global // package variables accessed through sync/atomic
+	tm           *tree.Model
+	fs           []*ssa.Function // functions of the root package (with init and closures)
+	freshRet     map[*ssa.Function]bool
+	callers      map[*ssa.Function][]*ssa.Function
+	requires     map[*ssa.Function]int
 	initOnlyMemo map[*ssa.Function]int
 }
 
